@@ -142,6 +142,14 @@ static void body(int argc, char** argv) {
     { auto in = real_inputs<dvec3>({ 32767, 32767, 32767 }, true); for (auto& x : in) { i16vec3 p = packSnorm<int16>(x); dvec3 u = unpackSnorm<double>(p); Ev("pkT").str("fmt", "TSnorm16").arg(x).res(p).val("u", u).emit(); } }
     for (::uint64_t c = 0; c < 256; ++c) { u8vec4 p(uint8(c), uint8(255 - c), uint8(c ^ 0x55), uint8(c * 7)); vec4 v = unpackUnorm<float>(p); u8vec4 p2 = packUnorm<uint8>(v); Ev("rtT").str("fmt", "TUnorm8").arg(p).val("v", v).val("p2", p2).emit();
         i8vec4 q(int8(c), int8(255 - c), int8(c ^ 0x55), int8(c * 7)); vec4 w = unpackSnorm<float>(q); i8vec4 q2 = packSnorm<int8>(w); Ev("rtT").str("fmt", "TSnorm8").arg(q).val("v", w).val("p2", q2).emit(); }
+    // the templated half packers of gtc/packing (one word per component, vec1..vec4): every code, each component position with its own code
+    for (::uint64_t c = 0; c < 65536; c += (g_thorough ? 1 : 7)) {
+        uint16 c0 = uint16(c), c1 = uint16(65535 - c), c2 = uint16(c ^ 0x5555), c3 = uint16(c * 3 + 1);
+        { u16vec1 p(c0); vec1 v = unpackHalf(p); u16vec1 p2 = packHalf(v); Ev("rtT").str("fmt", "Half1x16").arg(p).val("v", v).val("p2", p2).emit(); }
+        { u16vec2 p(c0, c1); vec2 v = unpackHalf(p); u16vec2 p2 = packHalf(v); Ev("rtT").str("fmt", "Half1x16").arg(p).val("v", v).val("p2", p2).emit(); }
+        { u16vec3 p(c0, c1, c2); vec3 v = unpackHalf(p); u16vec3 p2 = packHalf(v); Ev("rtT").str("fmt", "Half1x16").arg(p).val("v", v).val("p2", p2).emit(); }
+        { u16vec4 p(c0, c1, c2, c3); vec4 v = unpackHalf(p); u16vec4 p2 = packHalf(v); Ev("rtT").str("fmt", "Half1x16").arg(p).val("v", v).val("p2", p2).emit(); }
+    }
     for (::uint64_t c = 0; c < 65536; c += (g_thorough ? 1 : 11)) { u16vec2 p(uint16(c), uint16(65535 - c)); vec2 v = unpackUnorm<float>(p); u16vec2 p2 = packUnorm<uint16>(v); Ev("rtT").str("fmt", "TUnorm16").arg(p).val("v", v).val("p2", p2).emit();
         i16vec2 q(int16(c), int16(65535 - c)); vec2 w = unpackSnorm<float>(q); i16vec2 q2 = packSnorm<int16>(w); Ev("rtT").str("fmt", "TSnorm16").arg(q).val("v", w).val("p2", q2).emit(); }
     // RGBM
